@@ -275,6 +275,15 @@ func (g *G) spellDirective(d directive) string {
 			}
 		}
 	}
+	// lenient readers accept whitespace around "=" (the name and the argument are trimmed)
+	switch g.intn(12) {
+	case 0:
+		return name + " =" + arg
+	case 1:
+		return name + "= " + arg
+	case 2:
+		return name + "\t= " + arg
+	}
 	return name + "=" + arg
 }
 
@@ -461,6 +470,7 @@ func (g *G) selectingHeaders() []Hdr {
 	if g.chance(0.6) {
 		hs = append(hs, Hdr{"Accept-Encoding", []string{g.pick("gzip", "br", "gzip, br", "br, gzip", "x-gzip", "gzip;q=0.5, br", "identity",
 			// weights: small ones are weights like any other; only q=0 (in any number of decimals) means "not acceptable"
+			"x-gzip;q=0, identity", "x-gzip;q=0.5, identity", "gzip, identity", "x-gzip, identity", "gzip;q=0, identity", "x-compress;q=0.2, gzip", "compress;q=0.2, gzip",
 			"gzip, br;q=0.05", "gzip, br;q=0.001", "gzip, br;q=0", "gzip, br;q=0.000", "gzip, deflate;q=0.05", "br;q=0.099", "br;q=0.01", "br;q=1.000", "gzip;q=0.50, br")}})
 	}
 	if g.chance(0.4) {
@@ -635,6 +645,8 @@ var nearMisses = []string{
 	"http://a.test:0/x", "http://a.test:00/x", "http://a.test:080/x", "https://a.test:0/x", "https://a.test:443/x", "http://a.test:443/x",
 	"http://[::1]:0/x", "http://[::1]/x", "http://[::1]:80/x",
 	// dot-segments are a matter of the path: "." and ".." between slashes in a query are data
+	// a trailing dot is part of the host name as written: "a.test." and "a.test" are different authorities to a cache
+	"http://a.test./x", "http://A.TEST./x", "http://a.test.:80/x",
 	"http://a.test/y?next=/../x", "http://a.test/y?next=/%2E%2E/x", "http://a.test/x?p=/.", "http://a.test/x?p=/./", "http://a.test/x?p=", "http://a.test/q/y?p=/../../x",
 }
 
